@@ -89,7 +89,8 @@ class FunctionsCase(Case):
         failed = self.failed_flags(f, c)
         for b in range(B):  # the quantifier: failure patterns that leave enough successes
             env.assume(Or(*[Not(failed[b][r]) for r in range(R)]))
-        g = env.reals("g", (R, K), lo=-BOUND, hi=BOUND) if self.both else None
+        # perturbed rows may fail too: that concerns the gradient only, never the function values
+        g = env.reals("g", (R, K), lo=-BOUND, hi=BOUND, nan=True) if self.both else None
         gc = env.reals("gc", (R, C), lo=-BOUND, hi=BOUND) if self.both and C else None
         return {"w": w, "ow": ow, "f": f, "c": c, "g": g, "gc": gc}
 
@@ -205,6 +206,53 @@ class FunctionsCase(Case):
         return out
 
 
+class FloatProbeCase(Case):
+    """Concrete companion (no solver variable): the real-arithmetic obligations above say nothing about
+    cancellation.  Values of magnitude 1e8 with a spread of order one are pushed through the real code and
+    compared with the exact rational value of the defining formula (validation of the real-number abstraction)."""
+
+    family = "functions/float-conditioning"
+
+    def __init__(self, cid, estimator, base, weights, deltas):
+        self.id, self.estimator, self.base, self.weights, self.deltas = cid, estimator, base, weights, deltas
+        self.cfg0 = make_config({
+            "variables": {"initial_values": [0.0]},
+            "realizations": {"weights": list(weights), "realization_min_success": 1},
+            "function_estimators": [{"method": estimator}],
+        })
+
+    def describe(self):
+        return f"{self.estimator} of values {self.base}+{self.deltas} with weights {self.weights} (Float64 vs exact)"
+
+    def inputs(self, env):
+        return {}
+
+    def run(self, env, inp):
+        from ropt.ensemble_evaluator import EnsembleEvaluator
+        from ropt.evaluator import EvaluatorResult
+        vals_ = np.array([[self.base + d] for d in self.deltas])
+        ee = EnsembleEvaluator(self.cfg0, None, lambda v, c: EvaluatorResult(objectives=vals_.copy()), plugin_manager())
+        (res,) = ee.calculate(np.zeros(1), compute_functions=True, compute_gradients=False)
+        return float(res.functions.objectives[0])
+
+    def props(self, env, inp, oc):
+        if not oc.ok:
+            return [("no_internal_exception:" + type(oc.exc).__name__, SB(False))]
+        w = [Fraction(x) for x in self.weights]
+        tot = sum(w)
+        w = [x / tot for x in w]
+        f = [Fraction(self.base) + Fraction(d) for d in self.deltas]
+        m = sum(a * b for a, b in zip(w, f))
+        if self.estimator == "mean":
+            exact_v = float(m)
+        else:
+            n = sum(1 for x in w if x > 0)
+            var = Fraction(n, n - 1) * sum(a * (b - m) ** 2 for a, b in zip(w, f))
+            exact_v = float(var) ** 0.5
+        got = oc.value
+        return [(f"{self.estimator}.float_result_close_to_exact", SB(abs(got - exact_v) <= 1e-6 * (1 + abs(exact_v))))]
+
+
 def sort_filter(first, last, sort=(0,), kind="objective"):
     return {"method": f"sort-{kind}", "options": {"sort": list(sort) if kind == "objective" else sort[0],
                                                    "first": first, "last": last}}
@@ -241,6 +289,10 @@ def build_cases(tier):
             add(R=R, K=1, C=1, filters=(sort_filter(0, R - 2, kind="constraint"),), obj_filt=(-1,), con_filt=(0,))
             add(R=R, K=2, filters=(cvar_filter(0.5),), obj_filt=(-1, 0))
             add(R=R, K=1, C=1, filters=(sort_filter(1, R - 1),), obj_filt=(0,), con_filt=(-1,))
+    for est in ("mean", "stddev"):
+        for base in (1e8, -3e7):
+            n += 1
+            cases.append(FloatProbeCase(f"c01-{n:03d}", est, base, (1.0, 2.0, 1.0, 3.0, 1.0), (0.0, 1.0, 2.0, 3.5, -1.25)))
     if tier == "thorough":
         add(R=3, K=2, C=2, B=2, estimators=("mean", "stddev"), obj_est=(0, 1), con_est=(1, 0))
         add(R=3, K=3, C=1, filters=(sort_filter(0, 1), cvar_filter(0.6, sort=(1,))), obj_filt=(0, 1, -1), con_filt=(1,))
